@@ -500,6 +500,12 @@ func driveBits(t *Tracer, r Rng, n int) {
 			} else { // aligned range: span = c * 2^vz units would overflow; use huge zoom only near the bottom
 				continue
 			}
+			aligned := vz <= 8 && r.Chance(0.25)
+			if aligned {
+				// cells of an arbitrary whole number of units (odd parts 7, 49, 425, ...) and a voxel with a face exactly
+				// on a cell border: where a rounded reciprocal or quotient lands on the wrong side
+				span = r.In(1, 3000) << uint(vz)
+			}
 			mx := mn + span
 			if r.Chance(0.03) {
 				mx = mn - r.In(1, 5) // inverted range: error
@@ -509,6 +515,15 @@ func driveBits(t *Tracer, r Rng, n int) {
 			// voxel inside / straddling / outside the range
 			cellU := int64(1) << uint(sh)
 			f := (mn+r.In(-span/2-2*cellU, span+span/2+2*cellU))>>uint(sh) + 0
+			if aligned && span > 0 {
+				// v = 25 + S makes voxels one unit tall; bottom or top face on the border of cell kk
+				v, sh, cellU = 25+S, 0, 1
+				kk := r.In(0, int64(1)<<uint(vz))
+				f = mn + kk*(span>>uint(vz)) - r.Pick(0, 1)
+				if v < 0 || v > 35 {
+					continue
+				}
+			}
 			if r.Chance(0.1) {
 				f = r.Pick(-1, 0)
 			}
